@@ -308,8 +308,35 @@ impl World {
 				Ok(m) => m,
 				Err(_) => continue,
 			};
-			let start = m.current_best_block().height;
-			// the monitor may be on a block the chain no longer has (not in these profiles)
+			let mut start = m.current_best_block().height;
+			// The monitor may be on a block the chain no longer has (a reorganisation while the node
+			// was down, or a monitor blob older than the reorganisation): as `chain::Confirm`
+			// prescribes, un-confirm what sat in blocks that are gone, announce a best block below
+			// the fork point (reorganisations are shallower than 6 blocks, T4), then connect forward.
+			let best = m.current_best_block();
+			let stale = best.height > tip || self.chain.block_at(best.height).header.block_hash() != best.block_hash;
+			if stale {
+				self.out.bump("probe:restart_sync_from_a_block_no_longer_in_the_chain");
+				let on_chain: std::collections::HashSet<bitcoin::BlockHash> =
+					(0..=tip).map(|h| self.chain.block_at(h).header.block_hash()).collect();
+				let fork_h = best.height.min(tip).saturating_sub(6);
+				let fork_header = self.chain.block_at(fork_h).header;
+				let r = catch(|| {
+					for (txid, _h, bh) in m.get_relevant_txids() {
+						if let Some(bh) = bh {
+							if !on_chain.contains(&bh) {
+								m.transaction_unconfirmed(&txid, &bcast, &fee, &logger);
+							}
+						}
+					}
+					m.best_block_updated(&fork_header, fork_h, &bcast, &fee, &logger);
+				});
+				if let Err((msg, l)) = r {
+					self.library_panic("Restart monitor sync", msg, l);
+					return;
+				}
+				start = fork_h;
+			}
 			for h in (start + 1)..=tip {
 				let b = self.chain.block_at(h).clone();
 				let txdata: Vec<(usize, &Transaction)> =
@@ -343,7 +370,30 @@ impl World {
 				}
 			}
 		}
-		let start = mgr.current_best_block().height;
+		let mut start = mgr.current_best_block().height;
+		let best = mgr.current_best_block();
+		if best.height > tip || self.chain.block_at(best.height).header.block_hash() != best.block_hash {
+			use lightning::chain::Confirm;
+			let on_chain: std::collections::HashSet<bitcoin::BlockHash> =
+				(0..=tip).map(|h| self.chain.block_at(h).header.block_hash()).collect();
+			let fork_h = best.height.min(tip).saturating_sub(6);
+			let fork_header = self.chain.block_at(fork_h).header;
+			let r = catch(|| {
+				for (txid, _h, bh) in mgr.get_relevant_txids() {
+					if let Some(bh) = bh {
+						if !on_chain.contains(&bh) {
+							mgr.transaction_unconfirmed(&txid);
+						}
+					}
+				}
+				mgr.best_block_updated(&fork_header, fork_h);
+			});
+			if let Err((msg, l)) = r {
+				self.library_panic("Restart manager sync", msg, l);
+				return;
+			}
+			start = fork_h;
+		}
 		for h in (start + 1)..=tip {
 			let b = self.chain.block_at(h).clone();
 			let txdata: Vec<(usize, &Transaction)> =
